@@ -252,7 +252,7 @@ PROPS["C02"] = {
 
 PROPS["C06"] = {
     "lean_modules": ["AvroModel.Props.C06"],
-    "required_theorems": ["read_total", "skip_total", "next_total", "next_rejects", "array_count_overflow_rejected", "parse_time_total", "read_fuel_mono", "skip_fuel_mono", "read_terminates", "skip_terminates", "read_result", "skip_result", "termination_needs_sane"],
+    "required_theorems": ["read_total", "skip_total", "next_total", "next_rejects", "array_count_overflow_rejected", "parse_time_total", "read_fuel_mono", "skip_fuel_mono", "read_terminates", "skip_terminates", "read_result", "skip_result", "termination_needs_sane", "built_decoder_result"],
     "harness": [("MAL", "C06")],
     "careful": True,
     "level_text": "Proof (partial by the allocation clause): for every codec tree, every byte string, every destination and every step budget the "
